@@ -156,6 +156,17 @@ def raw_reply(r, target):
         hdr = ws + ": novalue" + eol
     elif hb == "spacename":
         hdr = ws + "X Bad : v" + eol
+    elif hb == "chunked_big":
+        # a first chunk that declares 256 MiB and delivers five bytes
+        hdr = ws + "Transfer-Encoding: chunked" + eol
+        body = "10000000\r\nhello"
+    elif hb.startswith("cld/") or hb.startswith("badacc_cld/"):
+        # Content-Length DECLARES <decl>; <sent> body bytes are delivered ("all" = as many as declared), then the
+        # server closes.  badacc_: the Accept value is not the digest of the key (a 101 is then refused as well).
+        _, decl, sent = hb.split("/")
+        h = ws if hb.startswith("cld/") else ws.replace("@ACCEPT@", "AAAAAAAAAAAAAAAAAAAAAAAAAAA=")
+        hdr = h + "Content-Length: " + decl + eol
+        body = "b" * (int(decl) if sent == "all" else int(sent))
     elif hb == "noend":
         return (line + eol + ws).encode("latin-1")
     else:
@@ -164,6 +175,16 @@ def raw_reply(r, target):
 
 
 # ---- concretisation -----------------------------------------------------------
+
+def clstr_of(r):
+    """Declared Content-Length of a std reply whose server declares more than it sends (clx)."""
+    x = r.get("clx", "0")
+    if x == "0" or not r["cl"]:
+        return ""
+    if x == "max":
+        return str((1 << 63) - 1)
+    return str(r["blen"] + int(x))
+
 
 def concretise(prog, pid, rnd, opts):
     """abstract program (TLC) -> driver program, or None if not realisable."""
@@ -203,7 +224,7 @@ def concretise(prog, pid, rnd, opts):
                 return [[(rand_token(rnd) if t == "foo" else t) for t in l] for l in lines]
             rep = dict(mode="std", status=r["status"], reason="", upg=_tok(r["upg"]), con=_tok(r["con"]), acc=r["acc"], blen=r["blen"],
                        cl=r["cl"], ext=EXT_VALUES[r["ext"]], sub="", sep=rnd.choice(SEPS), extra=[], hex="", cut=-1, tail="",
-                       segs=list(r.get("seg", [])), segabs=False,
+                       segs=list(r.get("seg", [])), segabs=False, clstr=clstr_of(r),
                        tailfr=[dict(op=f["op"], fin=f["fin"], len=f["len"]) for f in r.get("tail", [])])
             if c["subs"] and rnd.random() < 0.5:
                 rep["sub"] = c["subs"][0]
